@@ -91,6 +91,27 @@ fn fri_map_positions_contract() {
     assert!(r[0] == (a % parts) * (t / parts) + a / parts);
 }
 
+/// totality for hostile partition counts: the count is a power of two taken from a proof byte (any 2^0..2^63,
+/// FriProof::read_from refuses larger exponents); the function neither overflows nor divides by zero, and
+/// returns one index per position
+#[kani::proof]
+#[kani::unwind(4)]
+fn fri_map_positions_total_contract() {
+    let ld: u32 = kani::any();
+    kani::assume(ld >= 2 && ld <= 32);
+    let lf: u32 = kani::any();
+    kani::assume(lf >= 1 && lf <= 4 && lf < ld);
+    let lp: u32 = kani::any();
+    kani::assume(lp <= 63);
+    kani::cover!(lp == 63 && lf == 1);
+    let source = 1usize << ld;
+    let t = source >> lf;
+    let (a, b): (usize, usize) = (kani::any(), kani::any());
+    kani::assume(a < t && b < t);
+    let r = map_positions_to_indexes(&[a, b], source, 1usize << lf, 1usize << lp);
+    assert!(r.len() == 2);
+}
+
 #[kani::proof]
 #[kani::unwind(35)]
 #[kani::stub(alloc::fmt::format, fmt_stub)]
